@@ -1,6 +1,6 @@
 """C03 - no under-removal: collection of ready elements is total."""
 from .. import tree as T
-from . import common
+from . import common, intervals
 
 LEVEL = "other"
 
@@ -12,8 +12,8 @@ def run(ctx, res):
         "to the ready list, to the pending list, recursion executed, evaluator consulted) is compared with the spec: recursion "
         "into children on every element path, ready children kept (as node children or spliced), ready push <=> not skip & "
         "registered & verdict & built & non-empty.  SQ/DT: first-available strategy selection with a constantly available "
-        "fallback; evaluator registry wiring; marker extents are exactly the tag token boundaries.  Decides the totality of "
-        "collection, not the index arithmetic of merge_markers.")
+        "fallback; evaluator registry wiring; marker extents are exactly the tag token boundaries.  R7 (ordering enumeration) a child marker absorbed into an unwrap head/tail is covered entirely by the widened marker.  Decides the totality of "
+        "collection, not the cursor arithmetic of merge_markers.")
     res.trusted += ["Iterator::find returns the first match; fold visits every element of contents.iter()",
                     "driver fact extraction and the abstract interpreter (unsupported constructs fail closed)"]
     rows, bad = common.element_rows(ctx, res, "C03.R1-3", lambda r: True,
@@ -23,6 +23,7 @@ def run(ctx, res):
     common.strategy_selection(ctx, res, "C03.R4")
     common.registry_wiring(ctx, res, "C03.R5")
     common.marker_extents(ctx, res, "C03.R6", parts=("range", "unwrap"))
+    intervals.absorb_rule(ctx, res, "C03.R7")
     info = common.element_table(ctx)
     for o in info["outs"][:5]:
         res.samples.append({"decisions": {k: str(v) for k, v in o["decisions"].items()}, "observation": repr(common.observe_element(o))[:400]})
